@@ -59,7 +59,8 @@ class Task(object):
 
 class Sim(object):
     def __init__(self, tape, run, preempt_p=0.0, prim_p=None, target_files=(), target_prefixes=(), jitter=0,
-                 placements=None, max_steps=200000, max_time=1e7, epoch=1.6e9, trace_lines=True, timeskip=0.0, opcodes=False):
+                 placements=None, max_steps=200000, max_time=1e7, epoch=1.6e9, trace_lines=True, timeskip=0.0, opcodes=False,
+                 eager_start=False, record_points=False):
         self.tape = tape
         self.run = run
         self.preempt_p = preempt_p
@@ -79,6 +80,10 @@ class Sim(object):
         # opcode granularity: every bytecode instruction of a target frame is a pre-emption point (races inside one
         # source line, e.g. between reading a shared attribute twice, become reachable); roughly 10x more points
         self.opcodes = opcodes
+        # a started thread runs first (deterministically, no tape decision): lets placed pre-emptions address the new
+        # thread's line points without spending a placement on getting it started
+        self.eager_start = eager_start
+        self.point_owner = [] if record_points else None     # task id per line point
         self.now = 0.0
         self.tasks = []
         self.current = None
@@ -165,6 +170,8 @@ class Sim(object):
             return
         idx = self.line_points
         self.line_points += 1
+        if self.point_owner is not None:
+            self.point_owner.append(cur.id)
         self._count_step()
         others = None
         if idx in self.placements:
@@ -375,6 +382,10 @@ class Sim(object):
         task.state = RUNNABLE
         task.thread.start()
         self.run.ev('spawn', task.id, task.name)
+        cur = self.current
+        if self.eager_start and cur is not None and cur.thread is threading.current_thread() and not cur.killed:
+            self.run.ev('eager', cur.id, task.id)
+            self._transfer(cur, task)
 
     def _task_main(self, task):
         task.sem.acquire()
